@@ -62,7 +62,7 @@ from ..core.ctx import exc_label
 PROP = "C20"
 RULE = ("cases = (operation getitem|vindex|blocks, shape, chunking, dtype, encoded index). Complete part: every "
         "slice(start, stop, step) with start/stop in [-n-1, n+1] u {None}, step in {+-1, +-2, +-3, None} on 1-d arrays of "
-        "length n x ALL chunkings of the axis (quick n<=4, thorough n<=6 plus products of slices on shape (3,2)). Random part: "
+        "length n x ALL chunkings of the axis (quick n<=4, thorough n<=6 plus products of slices with steps -1, 2 on shape (3,2)). Random part: "
         "1-4 d arrays with axis lengths 0-9 and random (irregular, size-1, single) chunkings; index tuples mixing ints, slices, "
         "None, Ellipsis, one 1-d integer or boolean indexer (list / NumPy / dask; sorted, unsorted, duplicate, negative, empty), "
         "0-d dask ints, full-shape masks; vindex with broadcasting index arrays; blocks[]. non-trivial = some axis split into "
@@ -76,12 +76,12 @@ FLOORS = {"quick": {"evaluations": 8000, "distinct_nontrivial": 6000,
                     "sets": {"index_feature_tokens": 55}, "max_skipped_fraction": 0.2},
           "thorough": {"evaluations": 150000, "distinct_nontrivial": 120000,
                        "counters": {"compared": 150000, "lazy_meta_checked": 140000, "blocks_checked": 140000,
-                                    "compared_vindex": 6000, "compared_blocks": 3500, "unknown_chunks_results": 3500},
+                                    "compared_vindex": 5000, "compared_blocks": 2800, "unknown_chunks_results": 2800},
                        "sets": {"index_feature_tokens": 80}, "max_skipped_fraction": 0.2}}
 EXHAUSTIVE_SPACE = {
     "quick": "all slices (start, stop in [-n-1, n+1] u {None}; step in {None, 1, -1, 2, -2, 3, -3}) of 1-d arrays of length n = 0..4 x all chunkings of the axis",
     "thorough": "all slices (start, stop in [-n-1, n+1] u {None}; step in {None, 1, -1, 2, -2, 3, -3}) of 1-d arrays of length n = 0..6 x all chunkings; "
-                "products of slices (start, stop in [-n-1, n+1] u {None}; step in {1, -1, -2} on axis 0, {-1, 2} on axis 1) on shape (3, 2) x all 8 chunkings",
+                "products of slices (start, stop in [-n-1, n+1] u {None}; step in {-1, 2}) on shape (3, 2) x all 8 chunkings",
 }
 CLAIM = ("Every generated index was applied to the real dask.array (getitem / vindex / blocks) and to NumPy on the same data; "
          "held = the computed values equal NumPy's exactly, the lazy shape/dtype/chunks agree with the computed value block by "
@@ -144,7 +144,7 @@ def cases(tier, seed):
         for chs in A.all_chunkings((3, 2)):
             for a0 in _bounds(3):
                 for b0 in _bounds(3):
-                    for c0 in (1, -1, -2):
+                    for c0 in (-1, 2):
                         for a1 in _bounds(2):
                             for b1 in _bounds(2):
                                 for c1 in (-1, 2):
@@ -333,7 +333,16 @@ def run_case(case, ctx):
                       "lazy_chunks": str(out.lazy[1])}
         return
     # ---- failure: shrink, label ----------------------------------------------------------------
-    label, detail = classify(op, shape, chunks, case["dtype"], enc, bare, out.symptom)
+    key = None
+    if op == "getitem" and all(e["k"] == "slice" for e in enc):
+        # pure slice indices (the complete sub-spaces): classify once per (feature tokens, symptom, layout) and shard
+        key = (tuple(IX.tokens(enc, shape)), out.symptom, A.has_split(chunks), IX.zero_chunk_inside(chunks), 0 in shape)
+    if key is not None and key in _MEMO:
+        label, detail = _MEMO[key], {"minimal": "classification memoised from an index with the same feature tokens"}
+    else:
+        label, detail = classify(op, shape, chunks, case["dtype"], enc, bare, out.symptom)
+        if key is not None:
+            _MEMO[key] = label
     detail.update({"index": IX.show(enc), "shape": list(shape), "chunks": case["chunks"]})
     if out.status == "exc":
         import traceback
@@ -344,6 +353,7 @@ def run_case(case, ctx):
         ctx.violation(label, out.msg, lazy=str(out.lazy), **detail)
 
 
+_MEMO = {}
 MISMATCH_SYMPTOMS = ("shape", "dtype", "values", "lazy-shape", "lazy-dtype", "lazy-chunks", "block-shape", "block-placement",
                      "array-axis-not-moved-first", "size-1-axis-misplaced", "result-not-a-dask-array")
 
